@@ -85,6 +85,11 @@ def _cases_first_call(tier):
         for positive, deep_first in (('up', True), ('down', False)):
             out.append({'family': family, 'ncol': 3, 'nlayer': 3, 'positive': positive, 'deep_first': deep_first, 'two': False,
                         'aux': True, 'floors': floors3[1::6] if tier == 'quick' else floors3})
+    # depth coordinates with cell bounds
+    for family in FAMILIES:
+        for n, position in enumerate(('first', 'last')):
+            out.append({'family': family, 'ncol': 3, 'nlayer': 3, 'positive': ('up', 'down')[n], 'deep_first': bool(n), 'two': False,
+                        'depth_bounds': position, 'floors': floors3[2::7] if tier == 'quick' else floors3})
     # an empty regional subset (a horizontal dimension of length zero)
     for family in FAMILIES:
         for positive, deep_first in (('up', True), ('down', False)):
@@ -204,6 +209,15 @@ def build_dataset(case, floor):
                     floor_values[t, c] = 90000 + 1000 * t + 100 * (wet2[c] - 1) + c
         ds['salt2'] = (('k2', time_dim) + gdims, values.reshape((n2, nt) + gshape))
         expectations['salt2'] = ((time_dim,) + gdims, xr.DataArray(floor_values.reshape((nt,) + gshape), dims=(time_dim,) + gdims))
+    if case.get('depth_bounds'):
+        # the depth coordinate carries CF cell bounds (layer interfaces), listed before or after the data variables
+        values = ds[depth_name].values
+        bounds_var = xr.DataArray(np.stack([values - 0.5, values + 0.5], axis=-1), dims=[depth_dim, 'nv_depth'])
+        if case['depth_bounds'] == 'first':
+            ds = xr.Dataset({'depth_bnds': bounds_var, **{n: ds[n] for n in ds.data_vars}}, coords=ds.coords, attrs=ds.attrs)
+        else:
+            ds['depth_bnds'] = bounds_var
+        ds[depth_name].attrs['bounds'] = 'depth_bnds'
     if case.get('aux'):
         # one-dimensional auxiliary coordinates along the horizontal dimensions of a grid whose latitude / longitude are
         # two-dimensional (distances in metres along the model's own axes)
